@@ -6,14 +6,7 @@ import (
 	"time"
 
 	badger "github.com/dgraph-io/badger/v4"
-	"verif/h/gen"
 )
-
-func must(err error) {
-	if err != nil {
-		panic(err)
-	}
-}
 
 func main() {
 	dir := "/verif/.work/probe"
@@ -21,66 +14,22 @@ func main() {
 	os.MkdirAll(dir, 0o755)
 	o := badger.DefaultOptions(dir).WithLogger(nil)
 	o.NumCompactors = 0
-	o.MemTableSize = 1 << 20
-	o.ValueThreshold = 32
-	o.ValueLogFileSize = 1 << 20
-	o.ValueLogMaxEntries = 20
-	o.MaxLevels = 3
-	o.NumLevelZeroTables = 1
-	o.NumLevelZeroTablesStall = 20
-	db, err := badger.Open(o)
-	must(err)
-	set := func(k string, tok string) {
-		must(db.Update(func(txn *badger.Txn) error { return txn.Set([]byte(k), gen.Expand(tok, 2000)) }))
+	db, _ := badger.Open(o)
+	snap := db.NewTransaction(false)
+	fmt.Println("snap readTs", snap.ReadTs())
+	for i := 0; i < 5; i++ {
+		db.Update(func(txn *badger.Txn) error { return txn.Set([]byte("k"), []byte("v")) })
 	}
-	flushAll := func() {
-		_, err := db.VerifRotateMemtable()
-		must(err)
-		db.VerifWaitFlushed(10 * time.Second)
-	}
-	compactL0 := func() {
-		ok, err := db.VerifCompact(1, badger.VerifPrio{Level: 0, Score: 2, Adjusted: 2})
-		fmt.Println("compact L0:", ok, err)
-	}
-	set("victim", "v1")
-	for i := 0; i < 15; i++ {
-		set(fmt.Sprintf("junk%02d", i), "j1")
-	}
-	flushAll()
-	compactL0()
-	fmt.Println("vlog fids", db.VerifVlogFids())
-	// overwrite junk -> garbage in file 1
-	for i := 0; i < 15; i++ {
-		set(fmt.Sprintf("junk%02d", i), "j2")
-	}
-	flushAll()
-	compactL0() // drops old junk versions, creates discard stats for file 1
-	fmt.Println("discard", db.VerifDiscardStats(), "fids", db.VerifVlogFids())
-	// delete victim, tombstone to L0 only
-	must(db.Update(func(txn *badger.Txn) error { return txn.Delete([]byte("victim")) }))
-	flushAll()
-	get := func(when string) {
-		err := db.View(func(txn *badger.Txn) error {
-			it, err := txn.Get([]byte("victim"))
-			if err != nil {
-				return err
-			}
-			fmt.Println(when, "FOUND victim version", it.Version())
-			return nil
-		})
-		if err != nil {
-			fmt.Println(when, "victim:", err)
-		}
-	}
-	get("after delete")
-	fmt.Println("GC:", db.RunValueLogGC(0.01))
-	get("after GC")
-	compactL0()
-	get("after compacting the tombstone down")
-	must(db.Close())
-	db, err = badger.Open(o)
-	must(err)
-	get("after re-open")
+	fmt.Println("discard with snap open", db.VerifDiscardTs())
+	snap.Discard()
+	time.Sleep(10 * time.Millisecond)
+	fmt.Println("discard after snap closed", db.VerifDiscardTs())
+	db.Update(func(txn *badger.Txn) error { return txn.Set([]byte("k"), []byte("v")) })
+	time.Sleep(10 * time.Millisecond)
+	fmt.Println("discard after one more commit", db.VerifDiscardTs())
+	db.View(func(txn *badger.Txn) error { return nil })
+	time.Sleep(10 * time.Millisecond)
+	fmt.Println("discard after a view", db.VerifDiscardTs())
 	db.Close()
 	os.RemoveAll(dir)
 }
